@@ -123,6 +123,26 @@ Theorem T01_grow_dfa_late_test_refuted :
     let cur' := cur + 1 in let size' := (if size <? cur' then size * 3 / 2 else size) in ~ (cur' < size').
 Proof. exists 79, 80. vm_compute. split; [reflexivity|]. split; [discriminate|]. discriminate. Qed.
 
+(** per-depth element state arrays of the schema-aware scanners: after the resize LOOP the index written is inside
+    the array whatever the depth at which the schema grammar becomes active (64 doublings cover every 32-bit depth);
+    a single doubling from the initial 16 is not enough from depth 32 on (finding F30) *)
+Lemma elemstate_ensure_ok : forall fuel depth size, 1 <= size -> depth < size * 2 ^ (N.of_nat fuel) ->
+  depth < elemstate_ensure fuel depth size.
+Proof.
+  induction fuel as [|f IH]; intros depth size H1 H2.
+  - cbn in *. lia.
+  - cbn [elemstate_ensure]. destruct (N.leb_spec size depth) as [Hle|Hgt]; [|exact Hgt].
+    apply IH; [lia|]. rewrite Nat2N.inj_succ, N.pow_succ_r' in H2. lia.
+Qed.
+Theorem T01_grow_elemstate : forall depth, depth < 2 ^ 32 -> depth < elemstate_ensure 64 depth 16.
+Proof.
+  intros depth H. apply elemstate_ensure_ok; [lia|].
+  assert (E : 2 ^ 32 <= 16 * 2 ^ N.of_nat 64) by (vm_compute; discriminate). lia.
+Qed.
+Print Assumptions T01_grow_elemstate.
+Theorem T01_grow_elemstate_once_refuted : exists depth, ~ (depth < elemstate_once depth 16).
+Proof. exists 32. vm_compute. discriminate. Qed.
+
 (** non-vacuity *)
 Example T01_nonvacuous_ops :
   fst (run_ops (mk_cfg 1 true 4 8 2 true true) 64 (mk_reader [[0x3C; 0]; [0x61; 0; 0x0D]; [0; 0x0A; 0; 0x40; 0xD8; 0x00; 0xDC; 0x3E; 0]])
